@@ -50,10 +50,14 @@ func destinationTables(c *Ctx) {
 		{"other package", dest, dep, "QUAL"},
 		{"other package, vendored", dest, "example.test/app/vendor/" + dep, "QUAL"},
 		{"destination unknown (no directory for -pkg)", "", dep, "QUAL"},
+		{"other package under a directory whose name merely ends in vendor", dest, "example.test/govendor/dep", "QUAL2"},
+		{"other package whose path is a suffix of the destination's path", "example.test/wrap/" + dep, dep, "QUAL"},
+		{"other package whose path has the destination's path as a suffix", dep, "example.test/govendor/dep", "QUAL2"},
 	} {
 		m, mkS := mk()
 		imp := mkS("Package", map[string]interp.Value{"pkg": pkgOpaque(dep, "dep"), "Alias": interp.Lit("QUAL")})
-		imports := &interp.MapV{Keys: []interp.Value{interp.Lit(dep)}, Vals: []interp.Value{&interp.Ptr{Elem: imp}}}
+		imp2 := mkS("Package", map[string]interp.Value{"pkg": pkgOpaque("example.test/govendor/dep", "dep"), "Alias": interp.Lit("QUAL2")})
+		imports := &interp.MapV{Keys: []interp.Value{interp.Lit(dep), interp.Lit("example.test/govendor/dep")}, Vals: []interp.Value{&interp.Ptr{Elem: imp}, &interp.Ptr{Elem: imp2}}}
 		v := mkS("Var", map[string]interp.Value{"moqPkgPath": interp.Lit(tc.moqPkgPath), "imports": imports, "Name": interp.Lit("x")})
 		got, err := m.CallFunc(token.NoPos, pq, v, []interp.Value{pkgOpaque(tc.pkgPath, "p")})
 		gs := interp.Show(got)
@@ -77,9 +81,12 @@ func destinationTables(c *Ctx) {
 		{"the destination package through a vendor directory", dest, "example.test/app/vendor/" + dest, true, ""},
 		{"another package", dest, dep, false, dep},
 		{"another package, vendored", dest, "example.test/app/vendor/" + dep, false, dep},
+		{"another package under a directory whose name merely ends in vendor", dest, "example.test/govendor/dep", false, "example.test/govendor/dep"},
+		{"another package whose path is a suffix of the destination's path", "example.test/wrap/" + dep, dep, false, dep},
+		{"another package whose path has the destination's path as a suffix", dep, "example.test/govendor/dep", false, "example.test/govendor/dep"},
 	} {
 		m, mkS := mk()
-		reg := mkS("Registry", map[string]interp.Value{"moqPkgPath": interp.Lit(tc.moqPkgPath), "aliases": &interp.MapV{Keys: []interp.Value{interp.Lit(dep)}, Vals: []interp.Value{interp.Lit("srcalias")}}, "imports": &interp.MapV{}})
+		reg := mkS("Registry", map[string]interp.Value{"moqPkgPath": interp.Lit(tc.moqPkgPath), "aliases": &interp.MapV{Keys: []interp.Value{interp.Lit(dep), interp.Lit("example.test/govendor/dep")}, Vals: []interp.Value{interp.Lit("srcalias"), interp.Lit("srcalias")}}, "imports": &interp.MapV{}})
 		p := pkgOpaque(tc.pkgPath, "p")
 		got, err := m.CallFunc(token.NoPos, ai, &interp.Ptr{Elem: reg}, []interp.Value{p})
 		if err != nil {
